@@ -131,7 +131,13 @@ def soc_constraint(t, xs):
     t = te[0]
     xs = [sym.to_z3(x) for x in np.asarray(_base(xs), dtype=object).ravel()] \
         if not isinstance(xs, list) else xs
+    xs = [x for x in xs if not (sym.const_value(z3.simplify(x)) == 0)]
+    if not xs:          # ‖0‖ ≤ t  is the linear constraint t ≥ 0
+        return Constraint([t >= 0])
     sq = sum((x * x for x in xs), sym.rv(0))
+    tc = sym.const_value(z3.simplify(t))
+    if tc is not None:
+        return Constraint([z3.BoolVal(tc >= 0), sq <= sym.rv(tc * tc)])
     return Constraint([t >= 0, sq <= t * t])
 
 
